@@ -7,6 +7,8 @@ from corr import Case, compare, judge, account
 
 def one_case(ctx, k, adversarial=False, hash_ws=None, monitor=None, pgen=True, spec=None, odd_root=False):
     rng = ctx.rng
+    import common
+    common.next_logging()
     root = os.path.join(ctx.scratch, "st", "s%s" % k)
     if odd_root and rng.random() < 0.25:
         # the user's own choice of output directory (-o / OUTPUT_PATH) is not Maestro's to rename
